@@ -750,6 +750,8 @@ class Interp:
             return list(it)
         if isinstance(it, dict):
             return list(it.keys())
+        if isinstance(it, (set, frozenset)):
+            return sorted(it, key=repr)          # a set of concrete values: any order, made deterministic
         if isinstance(it, Cat):
             return list(it.parts)
         if isinstance(it, _Zip):
@@ -774,7 +776,7 @@ class Interp:
             return bool(v)
         if is_num(v):
             return v != 0
-        if isinstance(v, (str, tuple, list, dict)):
+        if isinstance(v, (str, tuple, list, dict, set, frozenset)):
             return len(v) > 0
         if isinstance(v, Rat):
             c = v.const_value()
@@ -830,6 +832,9 @@ class Interp:
 
     def _e_List(self, e, env, fi):
         return list(self._e_Tuple(e, env, fi))
+
+    def _e_Set(self, e, env, fi):
+        return {_hashable(x) for x in self._e_Tuple(e, env, fi)}
 
     def _e_Dict(self, e, env, fi):
         d = {}
@@ -1000,7 +1005,7 @@ class Interp:
     def contains(self, container, item, node, fi):
         if isinstance(container, (tuple, list)):
             return any(_cmp_norm(x) == _cmp_norm(item) for x in container)
-        if isinstance(container, dict):
+        if isinstance(container, (dict, set, frozenset)):
             return _hashable(item) in container
         if isinstance(container, str):
             return isinstance(item, str) and item in container
@@ -1095,7 +1100,7 @@ class Interp:
             if r is not NotImplemented:
                 return r
             return _TensorMethod(base, name)
-        if isinstance(base, (list, dict, tuple, str)):
+        if isinstance(base, (list, dict, tuple, str, set, frozenset)):
             return _PyMethod(base, name)
         if isinstance(base, GeneratorValue):
             raise self.err("attribute of a generator object", node, fi)
@@ -1197,6 +1202,9 @@ class Interp:
         return out
 
     _e_GeneratorExp = _e_ListComp
+
+    def _e_SetComp(self, e, env, fi):
+        return {_hashable(x) for x in self._e_ListComp(e, env, fi)}
 
     def _e_SetComp(self, e, env, fi):
         return self._e_ListComp(e, env, fi)
@@ -1337,7 +1345,7 @@ def _i_range(it, args, kw, node, fi):
 
 def _i_len(it, args, kw, node, fi):
     x = args[0]
-    if isinstance(x, (list, tuple, dict, str)):
+    if isinstance(x, (list, tuple, dict, str, set, frozenset)):
         return Fraction(len(x))
     if isinstance(x, Cat):
         return Fraction(len(x.parts))
@@ -1495,6 +1503,14 @@ def _i_list(it, args, kw, node, fi):
     return list(it.iterate(args[0], node, fi)) if args else []
 
 
+def _i_set(it, args, kw, node, fi):
+    return {_hashable(x) for x in it.iterate(args[0], node, fi)} if args else set()
+
+
+def _i_frozenset(it, args, kw, node, fi):
+    return frozenset(_i_set(it, args, kw, node, fi))
+
+
 def _i_dict(it, args, kw, node, fi):
     d = dict(kw)
     if args:
@@ -1554,7 +1570,7 @@ _BUILTIN_INTRINSICS = {
     "range": _i_range, "len": _i_len, "isinstance": _i_isinstance, "hasattr": _i_hasattr, "getattr": _i_getattr,
     "setattr": _i_setattr, "dir": _i_dir, "sorted": _i_sorted, "min": _i_min, "max": _i_max, "sum": _i_sum,
     "zip": _i_zip, "all": _i_all, "any": _i_any, "float": _i_float, "int": _i_int, "tuple": _i_tuple,
-    "list": _i_list, "dict": _i_dict, "filter": _i_filter, "enumerate": _i_enumerate, "reversed": _i_reversed,
+    "list": _i_list, "dict": _i_dict, "set": _i_set, "frozenset": _i_frozenset, "filter": _i_filter, "enumerate": _i_enumerate, "reversed": _i_reversed,
     "round": _i_round, "abs": _i_abs, "repr": _i_repr, "print": _i_print, "str": _i_repr, "id": _i_id, "hash": _i_hash,
 }
 
@@ -1738,6 +1754,19 @@ def _call_py_method(it, pm, args, kwargs, node, fi):
     if isinstance(x, tuple):
         if name == "index":
             return Fraction(x.index(args[0]))
+    if isinstance(x, (set, frozenset)):
+        if name in ("add", "discard", "remove") and isinstance(x, set):
+            getattr(x, name)(_hashable(args[0]))
+            return None
+        if name == "update" and isinstance(x, set):
+            for a in args:
+                x.update(_hashable(i) for i in it.iterate(a, node, fi))
+            return None
+        if name == "copy":
+            return type(x)(x)
+        if name in ("union", "intersection", "difference", "issubset", "issuperset", "isdisjoint"):
+            others = [{_hashable(i) for i in it.iterate(a, node, fi)} for a in args]
+            return getattr(x, name)(*others)
     if isinstance(x, str):
         if name == "startswith":
             return x.startswith(args[0])
